@@ -297,6 +297,39 @@ def gen_plotfile(rng, ndims=None, nlevels=None, payload=None, geo_stream=None,
     return pf
 
 
+def gen_deep_plotfile(rng, nlevels=12, ndims=2, nfields=2):
+    """a well-formed plotfile with MANY levels (Level_10, Level_11, ... sort before Level_2 as strings): every level
+    is one 2x2(x2) box refining one cell of the box below; tiny, so that a dozen levels stay cheap"""
+    pf = PF()
+    pf.ndims = ndims
+    pf.bf = 2
+    pf.fields = gen_fields(rng, nfields, nfields)
+    pf.time = 0.25
+    pf.step = 7
+    pf.geo_low = [0.0] * ndims
+    pf.dx0 = [1.0] * ndims
+    pf.n0 = [2] * ndims
+    lo = tuple([0] * ndims)
+    base = 0
+    layouts = []
+    for lv in range(nlevels):
+        level = Level()
+        hi = tuple(l + 1 for l in lo)
+        level.boxes = [(lo, hi)]
+        shape = tuple([2] * ndims) + (nfields,)
+        level.data.append(gen_payload(rng, shape, 'ints', base))
+        base += int(np.prod(shape))
+        level.files, lk = gen_layout(rng, 1, None)
+        layouts.append(lk)
+        pf.levels.append(level)
+        # the next level refines one cell of this box
+        cell = tuple(l + rng.randint(0, 1) for l in lo)
+        lo = tuple(2 * c for c in cell)
+    pf.meta = dict(ndims=ndims, nlevels=nlevels, bf=2, nfields=nfields, payload='ints', geo='exact/zero', layouts=layouts,
+                   nboxes=[1] * nlevels, nfiles=[1] * nlevels, n0=pf.n0, deep=True)
+    return pf
+
+
 # ---------------------------------------------------------------- writer
 
 def fnum(x):
